@@ -279,6 +279,9 @@ func corr(args []string) {
 	count, rejected, big := 0, 0, 0
 	reasons := map[string]int{}
 	emit := func(s fileSpec) {
+		if s.Bypass {
+			return // valid only under options: Batch.build's trace renumbering is not modelled (known finding, oracle only)
+		}
 		f, err := buildFile(s)
 		if err != nil {
 			rejected++
@@ -413,6 +416,24 @@ func figures(bs []obsBatch) (count, debit, credit int) {
 	return
 }
 
+// traceForeign: some entry's trace number does not start with the ODFI of its batch header
+// (such a file is valid only under BypassOriginValidation or CustomTraceNumbers).
+func traceForeign(bs []obsBatch) bool {
+	for _, b := range bs {
+		r := []rune(b.Sig)
+		if len(r) < 87 {
+			continue
+		}
+		odfi := string(r[79:87])
+		for _, e := range b.Entries {
+			if len(e.Trace) < 8 || e.Trace[:8] != odfi {
+				return true
+			}
+		}
+	}
+	return false
+}
+
 func isASCII(s string) bool {
 	for i := 0; i < len(s); i++ {
 		if s[i] >= 0x80 {
@@ -490,6 +511,11 @@ func check(s fileSpec) (fails []failure, label string, ok bool) {
 	}
 	g := res.file
 	out := observe(g)
+	// observation outside the statement of C12: Copy() shares the header pointer with the
+	// input batch, so Flatten overwrites batch numbers in its argument
+	if f.Validate() != nil {
+		inputLeftInvalid++
+	}
 	// result valid
 	if err := g.Validate(); err != nil {
 		fail("flatten:result-invalid:"+class, "result of FlattenBatches does not validate: "+err.Error())
@@ -514,7 +540,11 @@ func check(s fileSpec) (fails []failure, label string, ok bool) {
 			same = false
 		}
 	}
-	if !same {
+	if !same && traceForeign(in) {
+		// known finding: the consolidated batches are created without the validate options of
+		// the input, so Batch.build renumbers trace numbers that do not start with the header's ODFI
+		fail("flatten:entries-changed:trace-not-prefixed-by-odfi", "trace numbers that are valid only under BypassOriginValidation / CustomTraceNumbers are rewritten by FlattenBatches")
+	} else if !same {
 		lost, gained := 0, 0
 		for k, v := range a {
 			if b[k] < v {
@@ -611,6 +641,8 @@ func check(s fileSpec) (fails []failure, label string, ok bool) {
 	return fails, class + ":" + label, true
 }
 
+var inputLeftInvalid int
+
 func oracle(args []string) {
 	fs := flag.NewFlagSet("oracle", flag.ExitOnError)
 	out := fs.String("out", "", "output directory")
@@ -653,13 +685,20 @@ func oracle(args []string) {
 		if i%4 == 3 {
 			run(genAug(r))
 		} else {
-			run(genSpec(r, pickShape(r), i%8 == 6))
+			s := genSpec(r, pickShape(r), i%8 == 6)
+			if i%16 == 5 && s.Tag != "adv" {
+				// a file that is valid only under BypassOriginValidation (foreign trace prefix)
+				s.Bypass, s.TraceODFI, s.ViaText = true, "99887766", false
+				s.Tag += "+bypass"
+			}
+			run(s)
 		}
 	}
 	summ := map[string]any{
 		"kind": "summary", "evaluations": evals, "distinct_nontrivial": nontrivial,
 		"rule":         "a case counts as non-trivial when FlattenBatches merged at least two batches or had to keep two equal-header batches apart (distinct recipes only)",
 		"distribution": dist, "samples": samples,
+		"input_file_no_longer_valid_after_flatten": inputLeftInvalid,
 	}
 	js, _ := json.Marshal(summ)
 	w.Printf("%s\n", js)
